@@ -224,8 +224,11 @@ def build(case):
                 if left == 0 or new_mol:
                     if rng.random() < 0.15:
                         chain = top.add_chain()
-                    cur = top.add_residue(tmpl[m][3], chain)
-                    left = int(rng.integers(1, 7))
+                    # now and then a residue INSIDE a solute molecule is a water by name (a coordinated / covalently attached
+                    # water: the bond list ties it to its neighbours like any other part of the molecule)
+                    rname = "HOH" if (not new_mol and tmpl[m][3] != "HOH" and rng.random() < 0.2) else tmpl[m][3]
+                    cur = top.add_residue(rname, chain)
+                    left = int(rng.integers(1, 7)) if rname != "HOH" else int(rng.integers(1, 4))
                 left -= 1
             elif new_mol:
                 if mols_left == 0:
